@@ -283,6 +283,32 @@ def dynamic_values(run):
             run.ob(tag + "/value-semantics", core.ERROR, "native-exec", detail=f"{type(e).__name__}: {e}")
 
 
+def collisions(run):
+    """`equality implies equal dense arrays`, also between objects whose hashes happen to coincide and have already been computed: CPython has
+    hash(-1) == hash(-2), and the installed hash_array hashes the bytes of the values only (so reshapes of one buffer collide) -- equality must be
+    decided by the parameters, never by the cached hashes"""
+    M = c10.load()
+    Q, _ = np.linalg.qr(np.arange(9.0).reshape(3, 3) + 3 * np.eye(3))
+    pairs = {"ScaledIdentityMatrix(-1) vs (-2)": (lambda: M.ScaledIdentityMatrix(-1, 3), lambda: M.ScaledIdentityMatrix(-2, 3)),
+             "ScaledOrthogonalMatrix(-1) vs (-2)": (lambda: M.ScaledOrthogonalMatrix(-1, Q.copy()), lambda: M.ScaledOrthogonalMatrix(-2, Q.copy())),
+             "DenseRectangularMatrix 2x3 vs 3x2 of the same buffer": (lambda: M.DenseRectangularMatrix(np.arange(6.0).reshape(2, 3)), lambda: M.DenseRectangularMatrix(np.arange(6.0).reshape(3, 2))),
+             "block diagonal of colliding blocks": (lambda: M.SquareBlockDiagonalMatrix((M.ScaledIdentityMatrix(-1, 2), M.ScaledIdentityMatrix(3.0, 1))),
+                                                    lambda: M.SquareBlockDiagonalMatrix((M.ScaledIdentityMatrix(-2, 2), M.ScaledIdentityMatrix(3.0, 1))))}
+    for name, (mka, mkb) in pairs.items():
+        try:
+            a, b = mka(), mkb()
+            before = (a == b)
+            ha, hb = hash(a), hash(b)
+            after = (a == b)
+            same_arr = np.asarray(a.array).shape == np.asarray(b.array).shape and np.array_equal(np.asarray(a.array), np.asarray(b.array))
+            ok = (before == after) and (not after or same_arr)
+            run.ob(f"matrices.hash-collision[{name}]/equality-decided-by-parameters-not-by-cached-hashes", core.DISCHARGED if ok else core.FAILED, "native-exec", klass="bounded",
+                   witness=None if ok else {"pair": name},
+                   detail="" if ok else f"a == b is {before} before and {after} after both hashes were computed (hashes {'collide' if ha == hb else 'differ'}); dense arrays equal: {same_arr}")
+        except Exception as e:  # noqa: BLE001
+            run.ob(f"matrices.hash-collision[{name}]/equality-decided-by-parameters-not-by-cached-hashes", core.ERROR, "native-exec", detail=f"{type(e).__name__}: {e}")
+
+
 def repeated_properties(run):
     """`repeated evaluation of any property gives identical results regardless of which other properties were computed first`, on the optional
     precomputed-factor constructor arguments given one at a time (the state in which only part of a lazily completed pair is present)"""
@@ -349,5 +375,6 @@ def run(run_, tier):
     static_eq_hash(run_)
     dynamic_values(run_)
     repeated_properties(run_)
+    collisions(run_)
     deep = [n for n in c10.factories() if any(k in n for k in ("LowRank", "DenseSquare", "DenseDefinite", "DenseSymmetric", "TriangularFactored", "Eigendecomposed", "BlockDiagonal", "MatrixProduct"))]
     c10.run_suite(run_, deep, "quick")
